@@ -1,20 +1,723 @@
-//! C11 — not implemented yet (stub).
+//! C11 — string behaviour depends only on the code-unit sequence.
+//!
+//! Streams `exhaustive-len<=N` / `random`: a code-unit sequence `u` is built through every
+//! applicable `boa_string` constructor (genp::c11ctor); every public operation of every
+//! constructed string is compared with a naive reference over `[u16]` (genp::c11model), every
+//! pair of constructors is compared with `==`/`Ord`/`Hash`/collections, and "almost equal"
+//! neighbours `v != u` from mixed constructors must be unequal and ordered like the code units.
+//! Stream `js`: the same value built by different JS routes, observed through keys / Map / === /
+//! < / Symbol.for / normalize(form) / @@toPrimitive(hint), compared with V8.
 
 use crate::driver::{CaseOut, Env, Prop, Stream, Tier};
+use crate::genp::c11ctor::{Arena, Built, all_latin1, build_all};
+use crate::genp::c11js;
+use crate::genp::c11model::*;
+use crate::oracle::node_script;
+use crate::run::{Completion, RunCfg, run};
+use crate::tape::Tape;
+use boa_string::{CodePoint, JsStr, JsStrVariant, JsString};
+use std::cmp::Ordering;
+use std::collections::{BTreeMap, HashMap};
+use std::fmt::Debug;
+use std::hash::{Hash, Hasher};
 
 pub struct C11;
+
+/// Named tolerance switch for finding C11-a (`PartialEq<str> for JsStr`): when on (and not in
+/// strict replay mode) a str comparison that deviates from the model EXACTLY as the known
+/// defective algorithm does is counted (label `excluded-known-str-eq`) instead of failing.
+const TOLERATE_KNOWN_STR_EQ: bool = true;
+const KNOWN_STR_EQ_SIG: &str = "PartialEq<str> for JsStr";
+/// Named tolerance switch for findings C11-c/C11-d (`to_number` on `0x+1` / `-inf`): strings that
+/// contain exactly these constructs are not compared with the StringToNumber model (label
+/// `excluded-known-to-number`); agreement across constructors is still required.
+const TOLERATE_KNOWN_TO_NUMBER: bool = true;
+
+struct Fail {
+    c1: String,
+    c2: String,
+    op: String,
+    detail: String,
+}
+
+struct Ck {
+    fails: Vec<Fail>,
+    tolerated: u64,
+    checks: u64,
+    nfails: u64,
+    tolerated_num: u64,
+    strict: bool,
+}
+
+impl Ck {
+    fn new(strict: bool) -> Self {
+        Self { fails: vec![], tolerated: 0, checks: 0, nfails: 0, tolerated_num: 0, strict }
+    }
+    fn fail(&mut self, c1: &str, c2: &str, op: &str, detail: String) {
+        self.nfails += 1;
+        let same = self.fails.iter().rev().take(64).filter(|f| f.c1 == c1 && f.c2 == c2 && op_class(&f.op) == op_class(op)).count();
+        if same < 2 && self.fails.len() < 4000 {
+            self.fails.push(Fail { c1: c1.into(), c2: c2.into(), op: op.into(), detail });
+        }
+    }
+    fn eq<T: PartialEq + Debug>(&mut self, c1: &str, c2: &str, op: &str, got: T, want: T) {
+        self.checks += 1;
+        if got != want {
+            self.fail(c1, c2, op, format!("expected {want:?}\nactual   {got:?}"));
+        }
+    }
+    fn eqp<T: PartialEq + Debug>(&mut self, c1: &str, c2: &str, op: &str, params: impl FnOnce() -> String, got: T, want: T) {
+        self.checks += 1;
+        if got != want {
+            self.fail(c1, c2, op, format!("{}\nexpected {want:?}\nactual   {got:?}", params()));
+        }
+    }
+    /// a comparison with a Rust `str` (all of them route through `PartialEq<str> for JsStr`)
+    fn streq(&mut self, c1: &str, op: &str, js: JsStr<'_>, units: &[u16], other: &str, got: bool) {
+        self.checks += 1;
+        let want = m_to_string(units).as_deref() == Some(other);
+        if got == want {
+            return;
+        }
+        let class = if js.is_latin1() { "latin1-bytes-vs-utf8" } else { "utf16-no-length-check" };
+        if got == known_defect_streq(js.is_latin1(), units, other) {
+            if TOLERATE_KNOWN_STR_EQ && !self.strict {
+                self.tolerated += 1;
+                return;
+            }
+            self.fail(c1, "str", &format!("{KNOWN_STR_EQ_SIG} ({class})"), format!("{op}: string units [{}] ({}) compared with str {other:?}\nexpected {want}\nactual   {got}", hex_units(units), if js.is_latin1() { "Latin-1 buffer" } else { "UTF-16 buffer" }));
+        } else {
+            self.fail(c1, "str", &format!("str-eq-other ({class})"), format!("{op}: string units [{}] compared with str {other:?}\nexpected {want}\nactual   {got} (not the known defective algorithm either)", hex_units(units)));
+        }
+    }
+}
+
+fn h_std<T: Hash + ?Sized>(t: &T) -> u64 {
+    let mut h = std::collections::hash_map::DefaultHasher::new();
+    t.hash(&mut h);
+    h.finish()
+}
+fn h_fx<T: Hash + ?Sized>(t: &T) -> u64 {
+    let mut h = rustc_hash::FxHasher::default();
+    t.hash(&mut h);
+    h.finish()
+}
+
+fn cp_model(c: CodePoint) -> Cp {
+    match c {
+        CodePoint::Unicode(ch) => Cp::Scalar(u32::from(ch)),
+        CodePoint::UnpairedSurrogate(x) => Cp::Lone(x),
+    }
+}
+
+fn fbits(x: f64) -> u64 {
+    if x.is_nan() { 0x7ff8_dead_0000_0000 } else { x.to_bits() }
+}
+
+fn positions(n: usize) -> Vec<usize> {
+    let mut v: Vec<usize> = if n <= 4 { (0..=n + 1).collect() } else { vec![0, 1, 2, n / 2, n - 2, n - 1, n, n + 1] };
+    v.sort_unstable();
+    v.dedup();
+    v
+}
+
+/// needles for index_of / starts_with / ends_with: substrings, perturbed substrings, truncated units
+fn needles(u: &[u16]) -> Vec<Vec<u16>> {
+    let n = u.len();
+    let mut out: Vec<Vec<u16>> = vec![vec![], vec![0x61], vec![0x00], vec![0xE9], vec![0x100]];
+    let ps = positions(n);
+    for &i in &ps {
+        for &j in &ps {
+            if i < j && j <= n && (j - i <= 3 || i == 0 || j == n) {
+                out.push(u[i..j].to_vec());
+            }
+        }
+    }
+    let base = out.clone();
+    for b in base.iter().filter(|b| !b.is_empty()).take(12) {
+        let mut x = b.clone();
+        let l = x.len() - 1;
+        x[l] = x[l].wrapping_add(1);
+        out.push(x);
+        // the low byte only (catches comparisons that truncate to u8)
+        let y: Vec<u16> = b.iter().map(|c| c & 0xFF).collect();
+        out.push(y);
+        let mut z = b.clone();
+        z.push(0x61);
+        out.push(z);
+    }
+    out.sort();
+    out.dedup();
+    if out.len() > 40 {
+        // keep a spread
+        let step = out.len() as f64 / 40.0;
+        out = (0..40).map(|i| out[(i as f64 * step) as usize].clone()).collect();
+    }
+    out
+}
+
+/// every single-string operation of `b` against the model of `u`
+fn check_single(ck: &mut Ck, b: &Built, u: &[u16], heavy: bool) {
+    let c = b.name.as_str();
+    let s = &b.s;
+    let n = u.len();
+    let m = "model";
+    ck.eq(c, m, "len", s.len(), n);
+    if s.len() != n {
+        // the constructor did not produce u at all: the position-based operations below would
+        // index out of range (documented panics), report the length and the units only
+        ck.eq(c, m, "to_vec", s.to_vec(), u.to_vec());
+        return;
+    }
+    ck.eq(c, m, "is_empty", s.is_empty(), n == 0);
+    ck.eq(c, m, "to_vec", s.to_vec(), u.to_vec());
+    ck.eq(c, m, "iter", s.iter().collect::<Vec<u16>>(), u.to_vec());
+    ck.eq(c, m, "iter_len", s.iter().len(), n);
+    ck.eq(c, m, "into_iter", s.into_iter().collect::<Vec<u16>>(), u.to_vec());
+    ck.eq(c, m, "eq_u16_slice", (s == u, u == s), (true, true));
+    match n {
+        0 => ck.eq(c, m, "eq_u16_array", (*s == [0u16; 0], [0u16; 0] == *s), (true, true)),
+        1 => ck.eq(c, m, "eq_u16_array", (*s == [u[0]], [u[0]] == *s, *s == [u[0].wrapping_add(1)]), (true, true, false)),
+        2 => ck.eq(c, m, "eq_u16_array", (*s == [u[0], u[1]], [u[0], u[1]] == *s, *s == [u[0]]), (true, true, false)),
+        3 => ck.eq(c, m, "eq_u16_array", (*s == [u[0], u[1], u[2]], [u[0], u[1], u[2]] == *s), (true, true)),
+        _ => {}
+    }
+    let js = s.as_str();
+    ck.eq(c, m, "jsstr_len", (js.len(), js.is_empty()), (n, n == 0));
+    ck.eq(c, m, "jsstr_to_vec", js.to_vec(), u.to_vec());
+    ck.eq(c, m, "jsstr_iter", js.iter().collect::<Vec<u16>>(), u.to_vec());
+    ck.eq(c, m, "jsstr_eq_u16_slice", u == &js, true);
+    ck.eq(c, m, "jsstr_from_ref", JsStr::from(s).to_vec(), u.to_vec());
+    match js.variant() {
+        JsStrVariant::Latin1(bytes) => {
+            ck.eq(c, m, "variant_data", bytes.iter().map(|x| u16::from(*x)).collect::<Vec<_>>(), u.to_vec());
+            ck.eq(c, m, "as_latin1", (js.is_latin1(), js.as_latin1().map(<[u8]>::to_vec)), (true, all_latin1(u)));
+        }
+        JsStrVariant::Utf16(units) => {
+            ck.eq(c, m, "variant_data", units.to_vec(), u.to_vec());
+            ck.eq(c, m, "as_latin1", (js.is_latin1(), js.as_latin1().map(<[u8]>::to_vec)), (false, None));
+        }
+    }
+    // code points
+    let mcps = m_code_points(u);
+    ck.eq(c, m, "code_points", s.code_points().map(cp_model).collect::<Vec<_>>(), mcps.clone());
+    ck.eq(c, m, "jsstr_code_points", js.code_points().map(cp_model).collect::<Vec<_>>(), mcps.clone());
+    ck.eq(c, m, "code_points_lossy", js.code_points_lossy().collect::<String>(), m_to_string_lossy(u));
+    let ps = positions(n);
+    for &i in &ps {
+        ck.eqp(c, m, "code_unit_at", || format!("index {i}"), s.code_unit_at(i), u.get(i).copied());
+        ck.eqp(c, m, "jsstr_get_index", || format!("index {i}"), js.get(i), u.get(i).copied());
+        if i < n {
+            let (cp, cnt) = m_code_point_at(u, i);
+            let got = s.code_point_at(i);
+            ck.eqp(c, m, "code_point_at", || format!("position {i}"), (cp_model(got), got.code_unit_count(), got.as_u32()), (cp, cnt, match cp { Cp::Scalar(x) => x, Cp::Lone(x) => u32::from(x) }));
+            ck.eqp(c, m, "jsstr_code_point_at", || format!("position {i}"), cp_model(js.code_point_at(i)), cp);
+        }
+    }
+    // std strings and display forms
+    let ms = m_to_string(u);
+    ck.eq(c, m, "to_std_string", s.to_std_string().ok(), ms.clone());
+    ck.eq(c, m, "jsstr_to_std_string", js.to_std_string().ok(), ms.clone());
+    ck.eq(c, m, "to_std_string_lossy", s.to_std_string_lossy(), m_to_string_lossy(u));
+    ck.eq(c, m, "jsstr_to_std_string_lossy", js.to_std_string_lossy(), m_to_string_lossy(u));
+    ck.eq(c, m, "to_std_string_escaped", s.to_std_string_escaped(), m_to_string_escaped(u));
+    ck.eq(c, m, "display_escaped", s.display_escaped().to_string(), m_to_string_escaped(u));
+    ck.eq(c, m, "display_lossy", format!("{}", s.display_lossy()), m_to_string_lossy(u));
+    ck.eq(c, m, "jsstr_display_lossy", format!("{}", js.display_lossy()), m_to_string_lossy(u));
+    ck.eq(c, m, "debug", format!("{s:?}"), format!("JsString({:?})", m_to_string_escaped(u)));
+    ck.eq(c, m, "to_std_string_with_surrogates", s.to_std_string_with_surrogates().collect::<Vec<_>>(), m_segments(u));
+    {
+        let want: Vec<u16> = m_segments(u).into_iter().flat_map(|seg| match seg { Ok(t) => format!("<{t}>").encode_utf16().collect::<Vec<u16>>(), Err(x) => vec![x] }).collect();
+        ck.eq(c, m, "map_valid_segments", s.map_valid_segments(|t| format!("<{t}>")).to_vec(), want);
+    }
+    // number
+    let num = s.to_number();
+    ck.eq(c, m, "to_number_jsstr_agree", fbits(js.to_number()), fbits(num));
+    if let Some(want) = m_to_number(u) {
+        match known_to_number_construct(u) {
+            Some(_) if TOLERATE_KNOWN_TO_NUMBER && !ck.strict => ck.tolerated_num += 1,
+            Some(class) => ck.eqp(c, m, &format!("to_number ({class})"), || format!("got {num:?} want {want:?}"), fbits(num), fbits(want)),
+            None => ck.eqp(c, m, "to_number", || format!("got {num:?} want {want:?}"), fbits(num), fbits(want)),
+        }
+    }
+    // trims
+    for (op, got, want) in [("trim", s.trim(), m_trim(u)), ("trim_start", s.trim_start(), m_trim_start(u)), ("trim_end", s.trim_end(), m_trim_end(u))] {
+        ck.eq(c, m, op, got.to_vec(), want.to_vec());
+        ck.eqp(c, m, op, || "result compared with == / len".into(), (got == *want, got.len(), got == JsString::from(want), h_std(&got) == h_std(&JsString::from(want))), (true, want.len(), true, true));
+    }
+    // contains
+    let mut bytes: Vec<u8> = vec![0x00, 0x20, 0x30, 0x61, 0x7F, 0x80, 0xC0, 0xE9, 0xFF, 0xD8, 0xDC, 0x28, 0xFE];
+    bytes.extend(u.iter().map(|x| (*x & 0xFF) as u8));
+    bytes.extend(u.iter().map(|x| (*x >> 8) as u8));
+    bytes.sort_unstable();
+    bytes.dedup();
+    for &by in &bytes {
+        ck.eqp(c, m, "contains", || format!("byte {by:#04x}"), (s.contains(by), js.contains(by)), (m_contains(u, by), m_contains(u, by)));
+    }
+    // get(range) / slice
+    let stride = if heavy { 1 } else { 2 };
+    for (ii, &i) in ps.iter().enumerate() {
+        for (jj, &j) in ps.iter().enumerate() {
+            if !heavy && (ii + jj) % stride != 0 {
+                continue;
+            }
+            let v = |o: Option<JsString>| o.map(|x| x.to_vec());
+            let w = |o: Option<&[u16]>| o.map(<[u16]>::to_vec);
+            ck.eqp(c, m, "get_range", || format!("{i}..{j}"), v(s.get(i..j)), w(u.get(i..j)));
+            ck.eqp(c, m, "get_range_inclusive", || format!("{i}..={j}"), v(s.get(i..=j)), w(u.get(i..=j)));
+            ck.eqp(c, m, "jsstr_get_range", || format!("{i}..{j}"), js.get(i..j).map(|x| x.to_vec()), w(u.get(i..j)));
+            ck.eqp(c, m, "jsstr_get_range_inclusive", || format!("{i}..={j}"), js.get(i..=j).map(|x| x.to_vec()), w(u.get(i..=j)));
+            let sl = s.slice(i, j);
+            ck.eqp(c, m, "slice", || format!("slice({i}, {j})"), (sl.to_vec(), sl.len(), sl == *m_slice(u, i, j)), (m_slice(u, i, j).to_vec(), m_slice(u, i, j).len(), true));
+            if let Some(g) = s.get(i..j) {
+                // a slice is a full citizen: equal to a fresh string, same hash, same order
+                let fresh = JsString::from(&u[i..j]);
+                ck.eqp(c, m, "get_range_result", || format!("{i}..{j} vs fresh string"), (g == fresh, fresh == g, g.cmp(&fresh), h_std(&g) == h_std(&fresh), h_fx(&g) == h_fx(&fresh)), (true, true, Ordering::Equal, true, true));
+            }
+        }
+        let v = |o: Option<JsString>| o.map(|x| x.to_vec());
+        let w = |o: Option<&[u16]>| o.map(<[u16]>::to_vec);
+        ck.eqp(c, m, "get_range_to", || format!("..{i}"), v(s.get(..i)), w(u.get(..i)));
+        ck.eqp(c, m, "get_range_to_inclusive", || format!("..={i}"), v(s.get(..=i)), w(u.get(..=i)));
+        ck.eqp(c, m, "get_range_from", || format!("{i}.."), v(s.get(i..)), w(u.get(i..)));
+        ck.eqp(c, m, "jsstr_get_range_to", || format!("..{i}"), js.get(..i).map(|x| x.to_vec()), w(u.get(..i)));
+        ck.eqp(c, m, "jsstr_get_range_from", || format!("{i}.."), js.get(i..).map(|x| x.to_vec()), w(u.get(i..)));
+    }
+    ck.eq(c, m, "get_range_full", s.get(..).map(|x| x.to_vec()), Some(u.to_vec()));
+    ck.eq(c, m, "jsstr_get_range_full", js.get(..).map(|x| x.to_vec()), Some(u.to_vec()));
+    // windows
+    for size in 1..=3usize {
+        let want: Vec<Vec<u16>> = u.windows(size).map(<[u16]>::to_vec).collect();
+        ck.eqp(c, m, "windows", || format!("size {size}"), s.windows(size).map(|x| x.to_vec()).collect::<Vec<_>>(), want.clone());
+        ck.eqp(c, m, "windows_len", || format!("size {size}"), js.windows(size).len(), want.len());
+    }
+    // needle operations, the needle in both buffer kinds
+    for (k, nd) in needles(u).iter().enumerate() {
+        if !heavy && k % 3 != 0 {
+            continue;
+        }
+        let l1 = all_latin1(nd);
+        let mut forms: Vec<(&str, JsStr<'_>)> = vec![("utf16-needle", JsStr::utf16(nd))];
+        if let Some(b) = &l1 {
+            forms.push(("latin1-needle", JsStr::latin1(b)));
+        }
+        for (fname, needle) in forms {
+            let par = || format!("needle [{}] as {fname}", hex_units(nd));
+            ck.eqp(c, m, "starts_with", par, (s.starts_with(needle), js.starts_with(needle)), (m_starts_with(u, nd), m_starts_with(u, nd)));
+            ck.eqp(c, m, "ends_with", par, (s.ends_with(needle), js.ends_with(needle)), (m_ends_with(u, nd), m_ends_with(u, nd)));
+            for &from in &ps {
+                ck.eqp(c, m, "index_of", || format!("{} from {from}", par()), (s.index_of(needle, from), js.index_of(needle, from)), (m_index_of(u, nd, from), m_index_of(u, nd, from)));
+            }
+            ck.eqp(c, m, "eq_jsstr_needle", par, (*s == needle, needle == *s, js == needle), (u == nd.as_slice(), u == nd.as_slice(), u == nd.as_slice()));
+            ck.eqp(c, m, "cmp_jsstr_needle", par, (js.cmp(&needle), needle.cmp(&js), js.partial_cmp(&needle)), (m_cmp(u, nd), m_cmp(nd, u), Some(m_cmp(u, nd))));
+        }
+        // the needle as a Rust str
+        if let Some(t) = m_to_string(nd) {
+            str_ops(ck, c, s, u, &t);
+        }
+    }
+    // comparisons with Rust str: the string itself, and the UTF-8/Latin-1 confusions
+    if let Some(t) = &ms {
+        str_ops(ck, c, s, u, t);
+        let mut longer = t.clone();
+        longer.push('a');
+        str_ops(ck, c, s, u, &longer);
+        let mut chars = t.chars();
+        if chars.next_back().is_some() {
+            str_ops(ck, c, s, u, chars.as_str());
+        }
+    }
+    if let Some(b) = all_latin1(u) {
+        // the str whose UTF-8 bytes are the Latin-1 bytes of u
+        if let Ok(t) = std::str::from_utf8(&b) {
+            str_ops(ck, c, s, u, t);
+        }
+    }
+}
+
+/// all five comparison forms with a Rust str
+fn str_ops(ck: &mut Ck, c: &str, s: &JsString, u: &[u16], t: &str) {
+    let js = s.as_str();
+    ck.streq(c, "JsString == str", js, u, t, *s == *t);
+    ck.streq(c, "JsString == &str", js, u, t, *s == t);
+    ck.streq(c, "str == JsString", js, u, t, *t == *s);
+    ck.streq(c, "JsStr == str", js, u, t, js == *t);
+    ck.streq(c, "JsStr == &str", js, u, t, js == t);
+}
+
+/// pairs of constructors of the SAME units
+fn check_pairs_equal(ck: &mut Ck, built: &[Built], u: &[u16]) {
+    if built.is_empty() {
+        return;
+    }
+    let hs: Vec<(u64, u64, u64, u64)> = built.iter().map(|b| (h_std(&b.s), h_fx(&b.s), h_std(&b.s.as_str()), h_fx(&b.s.as_str()))).collect();
+    for (i, b) in built.iter().enumerate() {
+        ck.eq(&built[0].name, &b.name, "hash_std", hs[i].0, hs[0].0);
+        ck.eq(&built[0].name, &b.name, "hash_fx", hs[i].1, hs[0].1);
+        ck.eq(&b.name, &b.name, "hash_jsstr_vs_jsstring", (hs[i].2, hs[i].3), (hs[i].0, hs[i].1));
+    }
+    for i in 0..built.len() {
+        for j in i + 1..built.len() {
+            let (a, b) = (&built[i], &built[j]);
+            let (x, y) = (&a.s, &b.s);
+            let (c1, c2) = (a.name.as_str(), b.name.as_str());
+            ck.eq(c1, c2, "eq", (x == y, y == x, x != y), (true, true, false));
+            ck.eq(c1, c2, "cmp", (x.cmp(y), y.cmp(x), x.partial_cmp(y), x < y, x <= y), (Ordering::Equal, Ordering::Equal, Some(Ordering::Equal), false, true));
+            let (p, q) = (x.as_str(), y.as_str());
+            ck.eq(c1, c2, "jsstr_eq", (p == q, q == p), (true, true));
+            ck.eq(c1, c2, "jsstr_cmp", (p.cmp(&q), q.cmp(&p), p.partial_cmp(&q)), (Ordering::Equal, Ordering::Equal, Some(Ordering::Equal)));
+            ck.eq(c1, c2, "eq_jsstring_jsstr", (*x == q, q == *x, *y == p, p == *y), (true, true, true, true));
+            ck.eq(c1, c2, "affix_of_other", (x.starts_with(q), x.ends_with(q), y.starts_with(p), y.ends_with(p), x.index_of(q, 0), y.index_of(p, 0)), (true, true, true, true, Some(0), Some(0)));
+        }
+    }
+    // raw JsStr views that never were a JsString
+    let l1 = all_latin1(u);
+    let mut views: Vec<(&str, JsStr<'_>)> = vec![("jsstr_utf16", JsStr::utf16(u))];
+    if let Some(b) = &l1 {
+        views.push(("jsstr_latin1", JsStr::latin1(b)));
+    }
+    for (vn, v) in &views {
+        ck.eq(vn, "model", "jsstr_hash_view", (h_std(v), h_fx(v)), (hs[0].0, hs[0].1));
+        for b in built {
+            let q = b.s.as_str();
+            ck.eq(vn, &b.name, "jsstr_eq", (*v == q, q == *v, b.s == *v, *v == b.s), (true, true, true, true));
+            ck.eq(vn, &b.name, "jsstr_cmp", (v.cmp(&q), q.cmp(v)), (Ordering::Equal, Ordering::Equal));
+        }
+    }
+    // collections: all constructors are ONE key
+    let mut hm: HashMap<JsString, usize> = HashMap::new();
+    let mut fm: rustc_hash::FxHashMap<JsString, usize> = Default::default();
+    let mut bm: BTreeMap<JsString, usize> = BTreeMap::new();
+    for (i, b) in built.iter().enumerate() {
+        hm.insert(b.s.clone(), i);
+        fm.insert(b.s.clone(), i);
+        bm.insert(b.s.clone(), i);
+    }
+    let last = built.len() - 1;
+    ck.eq("*", "*", "hashmap_one_key", (hm.len(), fm.len(), bm.len()), (1, 1, 1));
+    for b in built {
+        ck.eq(&built[0].name, &b.name, "hashmap_lookup", (hm.get(&b.s).copied(), fm.get(&b.s).copied(), bm.get(&b.s).copied()), (Some(last), Some(last), Some(last)));
+    }
+}
+
+/// constructors of u against constructors of a different sequence v
+fn check_pairs_unequal(ck: &mut Ck, bu: &[Built], u: &[u16], bv: &[Built], v: &[u16]) {
+    let ord = m_cmp(u, v);
+    debug_assert!(ord != Ordering::Equal);
+    let vs = m_to_string(v);
+    for a in bu {
+        let x = &a.s;
+        let c1 = a.name.as_str();
+        ck.eq(c1, "v:units", "ne_eq_u16_slice", (x == v, v == x, v == &x.as_str()), (false, false, false));
+        if let Some(t) = &vs {
+            str_ops(ck, c1, x, u, t);
+        }
+        for b in bv {
+            let y = &b.s;
+            let c2 = format!("v:{}", b.name);
+            let c2 = c2.as_str();
+            ck.eq(c1, c2, "ne_eq", (x == y, y == x, x != y), (false, false, true));
+            ck.eq(c1, c2, "ne_cmp", (x.cmp(y), y.cmp(x), x.partial_cmp(y), x < y, x > y), (ord, ord.reverse(), Some(ord), ord == Ordering::Less, ord == Ordering::Greater));
+            let (p, q) = (x.as_str(), y.as_str());
+            ck.eq(c1, c2, "ne_jsstr_eq", (p == q, q == p, *x == q, p == *y), (false, false, false, false));
+            ck.eq(c1, c2, "ne_jsstr_cmp", (p.cmp(&q), q.cmp(&p)), (ord, ord.reverse()));
+            ck.eq(c1, c2, "ne_affix", (x.starts_with(q), x.ends_with(q), y.starts_with(p), y.ends_with(p)), (m_starts_with(u, v), m_ends_with(u, v), m_starts_with(v, u), m_ends_with(v, u)));
+            ck.eq(c1, c2, "ne_index_of", (x.index_of(q, 0), y.index_of(p, 0)), (m_index_of(u, v, 0), m_index_of(v, u, 0)));
+        }
+    }
+    // an ordered map holds exactly two keys, in code-unit order
+    let mut bm: BTreeMap<JsString, u8> = BTreeMap::new();
+    let mut hm: HashMap<JsString, u8> = HashMap::new();
+    for a in bu {
+        bm.insert(a.s.clone(), 0);
+        hm.insert(a.s.clone(), 0);
+    }
+    for b in bv {
+        bm.insert(b.s.clone(), 1);
+        hm.insert(b.s.clone(), 1);
+    }
+    let want: Vec<u8> = if ord == Ordering::Less { vec![0, 1] } else { vec![1, 0] };
+    ck.eq("*", "v:*", "btreemap_two_keys", bm.values().copied().collect::<Vec<_>>(), want);
+    ck.eq("*", "v:*", "hashmap_two_keys", hm.len(), 2);
+}
+
+struct Outcome {
+    fails: Vec<Fail>,
+    tolerated: u64,
+    tolerated_num: u64,
+    nfails: u64,
+    checks: u64,
+    reprs: Vec<String>,
+    constructors: usize,
+}
+
+fn check_units(u: &[u16], vs: &[Vec<u16>], strict: bool) -> Outcome {
+    let mut ck = Ck::new(strict);
+    let arena: Arena = build_all(u, true);
+    for (name, why) in &arena.ctor_failures {
+        ck.fail(name, "model", "constructor_invariant", why.clone());
+    }
+    let heavy = u.len() <= 8;
+    for b in &arena.strings {
+        check_single(&mut ck, b, u, heavy);
+    }
+    check_pairs_equal(&mut ck, &arena.strings, u);
+    for v in vs {
+        if v.as_slice() == u {
+            continue;
+        }
+        let av = build_all(v, false);
+        check_pairs_unequal(&mut ck, &arena.strings, u, &av.strings, v);
+    }
+    let mut reprs: Vec<String> = arena.strings.iter().map(|b| b.repr.clone()).collect();
+    reprs.sort();
+    reprs.dedup();
+    Outcome { fails: ck.fails, tolerated: ck.tolerated, tolerated_num: ck.tolerated_num, nfails: ck.nfails, checks: ck.checks, reprs, constructors: arena.strings.len() }
+}
+
+fn op_class(op: &str) -> &str {
+    op.split(" (").next().unwrap_or(op)
+}
+
+fn render(u: &[u16], vs: &[Vec<u16>], pair: &str, op: &str) -> String {
+    let mut s = format!("u={}", hex_units(u));
+    for v in vs {
+        s.push_str(&format!(" | v={}", hex_units(v)));
+    }
+    s.push_str(&format!(" | pair={pair} | op={op}"));
+    s
+}
+
+struct Parsed {
+    u: Vec<u16>,
+    vs: Vec<Vec<u16>>,
+    c1: String,
+    c2: String,
+    op: String,
+}
+
+fn parse_rendered(r: &str) -> Option<Parsed> {
+    let mut p = Parsed { u: vec![], vs: vec![], c1: "*".into(), c2: "*".into(), op: "*".into() };
+    let mut seen_u = false;
+    for part in r.trim().split(" | ") {
+        let (k, v) = part.split_once('=')?;
+        match k.trim() {
+            "u" => {
+                p.u = parse_hex_units(v)?;
+                seen_u = true;
+            }
+            "v" => p.vs.push(parse_hex_units(v)?),
+            "pair" => {
+                if let Some((a, b)) = v.split_once(',') {
+                    p.c1 = a.trim().into();
+                    p.c2 = b.trim().into();
+                }
+            }
+            "op" => p.op = v.trim().into(),
+            _ => return None,
+        }
+    }
+    if seen_u { Some(p) } else { None }
+}
+
+impl C11 {
+    /// Check one sequence (and its neighbours); `filter` = (c1, c2, op) with `*` wildcards.
+    fn check_seq(&self, env: &Env, u: &[u16], vs: &[Vec<u16>], filter: (&str, &str, &str), mut labels: Vec<&'static str>) -> CaseOut {
+        crate::run::install_panic_hook();
+        let strict = env.replay;
+        let res = std::panic::catch_unwind(std::panic::AssertUnwindSafe(|| check_units(u, vs, strict)));
+        let out = match res {
+            Ok(o) => o,
+            Err(_) => {
+                let desc = crate::run::take_last_panic().unwrap_or_else(|| "unknown panic".into());
+                return CaseOut::fail(render(u, vs, "*", "*"), format!("panic {}", crate::run::panic_signature(&desc)), desc).with_labels(labels);
+            }
+        };
+        let non_ascii = u.iter().any(|x| *x >= 0x80);
+        if non_ascii {
+            labels.push("unit>=0x80");
+        }
+        if u.iter().any(|x| is_hi(*x) || is_lo(*x)) {
+            labels.push(if m_to_string(u).is_some() { "surrogate-pairs-only" } else { "lone-surrogate" });
+        }
+        if all_latin1(u).is_some() && non_ascii {
+            labels.push("latin1-high");
+        }
+        for r in &out.reprs {
+            labels.push(match r.as_str() {
+                "Latin1Sequence/L1" => "repr:Latin1Sequence",
+                "Utf16Sequence/U16" => "repr:Utf16Sequence",
+                "Slice/L1" => "repr:Slice/L1",
+                "Slice/U16" => "repr:Slice/U16",
+                "Static/L1" => "repr:Static/L1",
+                "Static/U16" => "repr:Static/U16",
+                _ => "repr:other",
+            });
+        }
+        if out.tolerated > 0 {
+            labels.push("excluded-known-str-eq");
+        }
+        if out.tolerated_num > 0 {
+            labels.push("excluded-known-to-number");
+        }
+        if !vs.is_empty() {
+            labels.push("with-neighbours");
+        }
+        let hit = out.fails.iter().find(|f| {
+            (filter.0 == "*" || filter.0 == f.c1) && (filter.1 == "*" || filter.1 == f.c2) && (filter.2 == "*" || op_class(filter.2) == op_class(&f.op))
+        });
+        if let Some(f) = hit {
+            let rendered = render(u, vs, &format!("{},{}", f.c1, f.c2), op_class(&f.op));
+            let detail = format!("units [{}]  constructors {} / {}  operation {}\n{}\n({} constructors, {} comparisons in this case, {} failing)", hex_units(u), f.c1, f.c2, f.op, f.detail, out.constructors, out.checks, out.nfails);
+            return CaseOut::fail(rendered, f.op.clone(), detail).with_labels(labels);
+        }
+        // non-trivial: a unit >= 0x80 (or surrogate) and at least two different representations compared
+        let nontrivial = non_ascii && out.reprs.len() >= 2;
+        CaseOut::pass(render(u, vs, filter_pair(filter).as_str(), filter.2), nontrivial).with_labels(labels)
+    }
+
+    fn check_js(&self, env: &mut Env, src: &str, labels: Vec<&'static str>, nontrivial: bool) -> CaseOut {
+        let node = match env.node() {
+            Ok(n) => n,
+            Err(e) => return CaseOut::skip(src.to_string(), format!("oracle-unavailable: {e}")),
+        };
+        let (np, nc) = match node_script(node, src) {
+            Ok(x) => x,
+            Err(e) => return CaseOut::skip(src.to_string(), format!("oracle-error: {e}")),
+        };
+        if nc == "limit:timeout" {
+            return CaseOut::skip(src.to_string(), "v8-timeout");
+        }
+        let t = run(src, &RunCfg::default());
+        if t.completion.is_limit() {
+            return CaseOut::skip(src.to_string(), "boa-limit");
+        }
+        let bc = t.completion.render();
+        if t.prints != np {
+            let k = t.prints.iter().zip(np.iter()).position(|(a, b)| a != b).unwrap_or(t.prints.len().min(np.len()));
+            let tag = t.prints.get(k).or(np.get(k)).and_then(|l| l.split(' ').next()).unwrap_or("?").to_string();
+            let class = if matches!(t.completion, Completion::Panic(_)) { format!(" panic {bc}") } else { String::new() };
+            let detail = format!("line {k}: boa={:?} v8={:?}\n--- boa\n{}\n--- v8\n{}\n=> {nc}", t.prints.get(k), np.get(k), t.render(), np.join("\n"));
+            return CaseOut::fail(src.to_string(), format!("js: prints-differ at {tag}{class}"), detail).with_labels(labels);
+        }
+        if bc != nc {
+            let strip = |s: &str| s.split(':').take(2).collect::<Vec<_>>().join(":");
+            return CaseOut::fail(src.to_string(), format!("js: completion boa={} v8={}", strip(&bc), strip(&nc)), format!("boa: {bc}\nv8: {nc}\n{}", t.render())).with_labels(labels);
+        }
+        CaseOut::pass(src.to_string(), nontrivial && t.prints.len() >= 3).with_labels(labels)
+    }
+}
+
+fn filter_pair(f: (&str, &str, &str)) -> String {
+    if f.0 == "*" && f.1 == "*" { "*".into() } else { format!("{},{}", f.0, f.1) }
+}
+
+fn exhaustive_len(tier: Tier) -> u32 {
+    if tier == Tier::Quick { 2 } else { 3 }
+}
+
+/// deterministic neighbours for the exhaustive stream
+fn fixed_neighbours(u: &[u16]) -> Vec<Vec<u16>> {
+    let mut t = Tape::new(&[]);
+    let mut out: Vec<Vec<u16>> = vec![];
+    for kind in [0usize, 2, 4, 5, 7] {
+        if let Some((_, v)) = neighbour(u, kind, &mut t) {
+            out.push(v);
+        }
+    }
+    let mut w = u.to_vec();
+    w.push(0x100);
+    out.push(w);
+    out.sort();
+    out.dedup();
+    out
+}
 
 impl Prop for C11 {
     fn id(&self) -> &'static str {
         "C11"
     }
-    fn streams(&self, _tier: Tier) -> Vec<Stream> {
-        vec![]
+    fn streams(&self, tier: Tier) -> Vec<Stream> {
+        match tier {
+            Tier::Quick => vec![
+                Stream::new("exhaustive-len<=2", exhaustive_count(2), 8).batch(12).exhaustive(),
+                Stream::new("random", 12_000, 200).batch(100),
+                Stream::new("js", 1_500, 120).batch(25),
+            ],
+            Tier::Thorough => vec![
+                Stream::new("exhaustive-len<=3", exhaustive_count(3), 8).batch(40).exhaustive(),
+                Stream::new("random", 1_000_000, 200).batch(500),
+                Stream::new("js", 60_000, 120).batch(100),
+            ],
+        }
     }
     fn rule(&self) -> String {
-        "stub".into()
+        "code-unit sequences u over {a Z 0 space 7F 80 E9 FF 100 3C0 2028 FEFF D800 DBFF DC00 DFFF FFFF, astral pair}: exhaustively for <= 2 symbols (thorough <= 3), randomly (tape) for <= 64 units incl. Latin-1-only, static words, numeric text, whitespace-padded, surrogate-heavy modes, each with 'almost equal' neighbours v (unit changed/appended/dropped, low byte, UTF-8 bytes as Latin-1). u is built through every applicable boa_string constructor (from &[u16]/&str/String/FromStr/Cow/JsStr latin1+utf16, Latin1/Utf16/Common builders by push/chunk/iter/clone, concat/concat_array of every split, slice/get out of Latin-1 and UTF-16 parents, trim of padded parents, StaticJsStrings lookup, own StaticString, clone, into_raw/from_raw); every public operation of every constructed string is compared with a naive [u16] reference, every constructor pair with ==/Ord/Hash(Default+Fx)/HashMap/BTreeMap, u-vs-v pairs must be unequal and ordered like the code units. js stream: the value built by 3-7 JS routes, observed via ===, <, keys, Map/Set, Symbol.for, switch, indexOf, normalize(form)/@@toPrimitive(hint) and compared with V8. Non-trivial = u contains a unit >= 0x80 (or a surrogate) AND at least two different representations (Latin1Sequence/Utf16Sequence/Slice/Static x Latin-1/UTF-16 buffer) [js: >= 3 routes] were compared; distinct = distinct u (+ neighbours) / distinct source".into()
     }
-    fn run_case(&self, _env: &mut Env, _stream: &str, _index: u64, _tape: &[u8]) -> CaseOut {
-        CaseOut::skip(String::new(), "stub")
+    fn assumptions(&self) -> Vec<String> {
+        vec![
+            "the reference is genp::c11model (UTF-16 decoding, ECMAScript WhiteSpace, StringIndexOf, StringToNumber grammar + Rust f64 parsing) and std slice semantics for get(range)".into(),
+            "Hash is required to agree across representations, not to follow a particular byte scheme".into(),
+            "V8 (node 20) is the reference of the js stream".into(),
+        ]
+    }
+    fn rendered_prefix_lines(&self, _rendered: &str) -> usize {
+        0
+    }
+    fn run_case(&self, env: &mut Env, stream: &str, index: u64, tape: &[u8]) -> CaseOut {
+        if stream.starts_with("exhaustive") {
+            if index >= exhaustive_count(exhaustive_len(env.tier)) {
+                return CaseOut::skip(format!("index {index}"), "index-out-of-range");
+            }
+            let u = seq_of_index(index);
+            let vs = fixed_neighbours(&u);
+            return self.check_seq(env, &u, &vs, ("*", "*", "*"), vec![]);
+        }
+        if stream == "js" {
+            let c = c11js::generate(tape);
+            let nontrivial = c.units.iter().any(|x| *x >= 0x80) && c.routes >= 3;
+            return self.check_js(env, &c.src, c.labels, nontrivial);
+        }
+        let mut t = Tape::new(tape);
+        let g = gen_units(&mut t, 64);
+        let mut labels = vec![match g.mode {
+            "alphabet" => "mode:alphabet",
+            "latin1-only" => "mode:latin1-only",
+            "static-word" => "mode:static-word",
+            "numeric" => "mode:numeric",
+            "ws-padded" => "mode:ws-padded",
+            _ => "mode:surrogates",
+        }];
+        labels.push(match g.units.len() {
+            0 => "len:0",
+            1..=4 => "len:1-4",
+            5..=16 => "len:5-16",
+            _ => "len:17-64",
+        });
+        let mut vs: Vec<Vec<u16>> = vec![];
+        for _ in 0..t.below(4) {
+            let kind = t.below(8);
+            if let Some((name, v)) = neighbour(&g.units, kind, &mut t) {
+                labels.push(match name {
+                    "append-a" | "append-unit" => "nb:append",
+                    "drop-last" | "drop-first" => "nb:drop",
+                    "change-unit" => "nb:change-unit",
+                    "utf8-bytes" => "nb:utf8-bytes",
+                    "low-byte" => "nb:low-byte",
+                    _ => "nb:flip-bit8",
+                });
+                if !vs.contains(&v) {
+                    vs.push(v);
+                }
+            }
+        }
+        self.check_seq(env, &g.units, &vs, ("*", "*", "*"), labels)
+    }
+    fn run_rendered(&self, env: &mut Env, stream: &str, rendered: &str) -> Option<CaseOut> {
+        if stream == "js" {
+            return Some(self.check_js(env, rendered, vec![], true));
+        }
+        let p = parse_rendered(rendered)?;
+        Some(self.check_seq(env, &p.u, &p.vs, (&p.c1, &p.c2, &p.op), vec![]))
     }
 }
